@@ -568,7 +568,29 @@ class PTA:
                     b = self.ev(t.value)
                     self.mutations.append(Mutation(f, st, 'del', mangle(f.cls.name if f.cls else None, t.attr),
                                                    t.value, b, 'del x.a'))
-        elif isinstance(st, (ast.Pass, ast.Break, ast.Continue, ast.Import, ast.ImportFrom, ast.Nonlocal)):
+        elif isinstance(st, (ast.Import, ast.ImportFrom)):
+            if f.kind == 'function':
+                # function-local import: bind the local name to the module / imported object
+                for al in st.names:
+                    if isinstance(st, ast.Import):
+                        local = al.asname or al.name.split('.')[0]
+                        dotted = al.name if al.asname else al.name.split('.')[0]
+                        objs = {self.mod_obj(self.ix.modules[dotted])} if dotted in self.ix.modules \
+                            else {self.extmod_obj(dotted)}
+                    else:
+                        local = al.asname or al.name
+                        mod = st.module or ''
+                        if mod in self.ix.modules:
+                            r = self.ix.resolve_global(self.ix.modules[mod], al.name)
+                            objs = self.objs_of_resolution(r) if r is not None else set()
+                            if not objs and (mod + '.' + al.name) in self.ix.modules:
+                                objs = {self.mod_obj(self.ix.modules[mod + '.' + al.name])}
+                        else:
+                            objs = {self.extmod_obj((mod + '.' + al.name) if mod else al.name)}
+                    var = self.var_for_name(local, f)
+                    if var and objs:
+                        self.add(var, objs)
+        elif isinstance(st, (ast.Pass, ast.Break, ast.Continue, ast.Nonlocal)):
             pass
         elif isinstance(st, ast.Global):
             pass
